@@ -278,3 +278,52 @@ fn drive_inner<'a, T: 'a, K: PartialEq + Debug + Clone + 'a, I: Iterator<Item = 
     }
     Ok(out)
 }
+
+/// Two iterators obtained from ONE object (two texts searched with one matcher, two queries on one tree) are
+/// alive at the same time and advanced in the order given by `order` (false: first, true: second; then both are
+/// drained): each must yield its own sequence.
+pub fn drive_pair<T1, T2, K: PartialEq + Debug>(what: &str, mut a: impl Iterator<Item = T1>, ma: Vec<K>, ka: impl Fn(T1) -> K, mut b: impl Iterator<Item = T2>, mb: Vec<K>, kb: impl Fn(T2) -> K, order: &[bool]) -> Result<(), String> {
+    let (mut ia, mut ib) = (0usize, 0usize);
+    let (mut done_a, mut done_b) = (false, false);
+    let cap = order.len() + ma.len() + mb.len() + 4;
+    let mut steps = 0usize;
+    let mut sched: Vec<bool> = order.to_vec();
+    loop {
+        steps += 1;
+        if steps > cap + 8 {
+            return Err(format!("{}: two live iterators do not end", what));
+        }
+        let second = match sched.first() {
+            Some(&s) => {
+                sched.remove(0);
+                s
+            }
+            None => done_a,
+        };
+        if second && !done_b {
+            let (r, m) = (b.next().map(&kb), mb.get(ib));
+            if r.as_ref() != m {
+                return Err(format!("{}: with two iterators alive (advanced in the order {:?}, false = first), item #{} of the second is {:?}, its own sequence has {:?}", what, order, ib, r, m));
+            }
+            if m.is_none() {
+                done_b = true;
+            }
+            ib += 1;
+        } else if !second && !done_a {
+            let (r, m) = (a.next().map(&ka), ma.get(ia));
+            if r.as_ref() != m {
+                return Err(format!("{}: with two iterators alive (advanced in the order {:?}, false = first), item #{} of the first is {:?}, its own sequence has {:?}", what, order, ia, r, m));
+            }
+            if m.is_none() {
+                done_a = true;
+            }
+            ia += 1;
+        }
+        if done_a && done_b {
+            return Ok(());
+        }
+        if sched.is_empty() && !done_a && done_b {
+            continue;
+        }
+    }
+}
